@@ -1,6 +1,6 @@
 """Small finite-state abstract interpreter over a CFG (concrete-state powerset: every tracked variable always has a
 definite value; unknown inputs are enumerated at entry).  Used for lock / connection / flag typestate rules."""
-import ast
+import ast, re
 from .loader import norm, dotted, AnalysisError
 
 
@@ -89,10 +89,48 @@ class Machine:
         'normal': list of {var: value} updates (nondeterministic alternatives) applied on non-exceptional out-edges
         'exc':    list of updates applied on the exceptional out-edge (default: unchanged)
     atom(text, env) -> True/False/None for test atoms"""
-    def __init__(self, g, vars_, effect, atom, resolve=False):
+    def __init__(self, g, vars_, effect, atom, resolve=False, snap=None):
         # resolve=True: local flags in tests are replaced by the condition they were assigned (only sound when the flag's operands cannot change
         # between the assignment and the test -- not for snapshots such as SQLiteProvider.commit's `in_transaction`)
+        # snap={dotted attribute text: tracked variable}: a local assigned from such an attribute (`immediate = cache.immediate`) is tracked as a
+        # snapshot -- it keeps the value the attribute had at the assignment; atoms that mention the local are evaluated as the attribute's atom
+        # in an environment where the tracked variable has the snapshot value
         self.g, self.vars, self.effect, self.atom, self.resolve = g, list(vars_), effect, atom, resolve
+        self.snap = dict(snap or {}); self.snap_locals = {}
+        if self.snap:
+            for n in g.nodes:
+                if n.kind == 'stmt' and isinstance(n.ast, ast.Assign):
+                    for t in n.ast.targets:
+                        pairs = list(zip(t.elts, n.ast.value.elts)) if isinstance(t, ast.Tuple) and isinstance(n.ast.value, ast.Tuple) and len(t.elts) == len(n.ast.value.elts) else [(t, n.ast.value)]
+                        for t_, v_ in pairs:
+                            if isinstance(t_, ast.Name) and dotted(v_) in self.snap: self.snap_locals.setdefault(t_.id, set()).add(dotted(v_))
+            # a local bound from two different attributes, or also bound otherwise, is not a snapshot the machine can follow
+            other = set()
+            for n in g.nodes:
+                if n.ast is None: continue
+                for x in ast.walk(n.ast):
+                    if isinstance(x, ast.Name) and isinstance(x.ctx, ast.Store) and x.id in self.snap_locals:
+                        if not (n.kind == 'stmt' and isinstance(n.ast, ast.Assign) and self._snap_pairs(n.ast, x.id)): other.add(x.id)
+            self.snap_locals = {k: next(iter(v)) for k, v in self.snap_locals.items() if len(v) == 1 and k not in other}
+            self.vars += ['L:' + k for k in sorted(self.snap_locals)]
+            user_atom = atom
+            def atom2(text, env):
+                names = [k for k in self.snap_locals if re.search(r'(?<![\w.])%s(?![\w(])' % re.escape(k), text)]
+                if not names: return user_atom(text, env)
+                env2 = dict(env); t2 = text
+                for k in names:
+                    if env['L:' + k] == 'unset': return None
+                    env2[self.snap[self.snap_locals[k]]] = env['L:' + k]
+                    t2 = re.sub(r'(?<![\w.])%s(?![\w(])' % re.escape(k), self.snap_locals[k], t2)
+                return user_atom(t2, env2)
+            self.atom = atom2
+
+    def _snap_pairs(self, a, name):
+        for t in a.targets:
+            pairs = list(zip(t.elts, a.value.elts)) if isinstance(t, ast.Tuple) and isinstance(a.value, ast.Tuple) and len(t.elts) == len(a.value.elts) else [(t, a.value)]
+            for t_, v_ in pairs:
+                if isinstance(t_, ast.Name) and t_.id == name and dotted(v_) in self.snap: return dotted(v_)
+        return None
 
     def env(self, st): return dict(zip(self.vars, st))
     def st(self, env): return tuple(env[v] for v in self.vars)
@@ -117,6 +155,14 @@ class Machine:
                     v = eval_test(n.ast.test, lambda t, node: self.atom(t, env))
                     if v is False: continue
                 eff = self.effect(n, env) if n.ast is not None else None
+                if self.snap_locals and n.kind == 'stmt' and isinstance(n.ast, ast.Assign) and lab not in ('exc', 'unmatched'):
+                    su = {}
+                    for k in self.snap_locals:
+                        src = self._snap_pairs(n.ast, k)
+                        if src: su['L:' + k] = env[self.snap[src]]
+                    if su:
+                        alts = (eff or {}).get('normal') or [{}]
+                        eff = dict(eff or {}); eff['normal'] = [dict(a, **su) for a in alts]
                 if eff is None: out.add(s); continue
                 key = 'exc' if lab in ('exc', 'unmatched') else 'normal'
                 alts = eff.get(key)
@@ -124,6 +170,7 @@ class Machine:
                 for upd in alts:
                     e2 = dict(env); e2.update(upd); out.add(self.st(e2))
             return frozenset(out) if out else None
+        init_envs = [dict({'L:' + k: 'unset' for k in self.snap_locals}, **e) for e in init_envs]
         IN = g.forward([self.st(e) for e in init_envs], transfer, start=start)
         return IN
 
